@@ -23,7 +23,7 @@ using namespace ceq;
 static double vmax(const Vector& v) { return maxAbs(v); }
 static double mmax(const Matrix& A) { double m = 0; for (int i = 0; i < A.nrow(); ++i) for (int j = 0; j < A.ncol(); ++j) { double a = std::abs(A(i, j)); if (std::isnan(a)) return NAN; if (a > m) m = a; } return m; }
 
-struct Spec { int type; int cls; uint64_t seed; bool enabled; };
+struct Spec { int type; int cls; uint64_t seed; bool enabled; int ref = -1; };   // ref: index of the Weld spec a derived constraint hangs on
 
 // homogeneous linear speed coupler (workless): sum a_i u_i = 0
 static bool addLinearSpeedCoupler(Model& M, vh::Rng& g, ConsInfo& ci) {
@@ -37,6 +37,24 @@ static bool addLinearSpeedCoupler(Model& M, vh::Rng& g, ConsInfo& ci) {
     return true;
 }
 static const int cLinearSpeedCoupler = 100;
+// geometric (not duplicate) redundancy hung on a Weld between bodies (b1,b2) with frames (FB,FF):
+//   cBallOnWeld     Ball(b1, any point, b2, origin of FF): its 3 rows equal the Weld's translational rows
+//   cPlaneOnWeld    PointInPlane(b1, random normal, h, b2, origin of FF): its row is a linear combination of those rows
+//   cSecondWeld     Weld(b1, FB*X, b2, FF*X): 6 rows spanning the same row space through a different frame pair
+static const int cBallOnWeld = 101, cPlaneOnWeld = 102, cSecondWeld = 103;
+static Transform xfFromPar(const std::vector<double>& p, int o) {
+    Mat33 m; for (int i = 0; i < 3; ++i) for (int j = 0; j < 3; ++j) m(i, j) = p[o + 3 * i + j];
+    Rotation R(m, true); return Transform(R, Vec3(p[o + 9], p[o + 10], p[o + 11]));
+}
+static bool addDerived(Model& M, vh::Rng& g, int type, const ConsInfo& weld, ConsInfo& ci) {
+    ci = ConsInfo(); const int b1 = weld.cbodies[0], b2 = weld.cbodies[1];
+    const Transform FB = xfFromPar(weld.par, 0), FF = xfFromPar(weld.par, 12);
+    ci.cbodies = {b1, b2}; ci.cls = weld.cls;
+    if (type == cBallOnWeld) { ci.type = cBall; ci.c = Constraint::Ball(M.bodies[b1], rvec(g, 0.6), M.bodies[b2], FF.p()); }
+    else if (type == cPlaneOnWeld) { ci.type = cPointInPlane; ci.c = Constraint::PointInPlane(M.bodies[b1], runit(g), g.range(-0.5, 0.5), M.bodies[b2], FF.p()); }
+    else { ci.type = cWeld; Transform X = rframe(g, 2); ci.c = Constraint::Weld(M.bodies[b1], FB * X, M.bodies[b2], FF * X); }
+    return true;
+}
 
 static bool workless(int type) {
     switch (type) {
@@ -57,7 +75,12 @@ static Built build(uint64_t treeSeed, int nBodies, const std::vector<Spec>& spec
         if (!include[i]) continue;
         vh::Rng gc(specs[i].seed);
         ConsInfo ci; bool ok;
-        if (specs[i].type == cLinearSpeedCoupler) ok = addLinearSpeedCoupler(M, gc, ci);
+        if (specs[i].type >= cBallOnWeld) {
+            // the Weld it hangs on must have been built (included) already
+            int k = -1; for (size_t j = 0; j < B.specIx.size(); ++j) if (B.specIx[j] == specs[i].ref) k = (int)j;
+            ok = k >= 0 && addDerived(M, gc, specs[i].type, B.cons[k], ci);
+        }
+        else if (specs[i].type == cLinearSpeedCoupler) ok = addLinearSpeedCoupler(M, gc, ci);
         else ok = addConstraint(M, gc, specs[i].type, specs[i].cls, ci);
         if (ok) { B.cons.push_back(ci); B.specIx.push_back((int)i); }
     }
@@ -118,6 +141,12 @@ static void oneCase(uint64_t seed, long caseNo) {
         Spec s; s.type = g.below(cNumCons + 1); if (s.type == cNumCons) s.type = cLinearSpeedCoupler;
         s.cls = g.below(4); s.seed = g.next(); s.enabled = g.below(4) != 0;
         specs.push_back(s);
+        if (s.type == cWeld && s.cls != 3 && g.coin()) {     // geometric redundancy family
+            const int w = (int)specs.size() - 1; specs[w].enabled = true;
+            const int kinds[3] = {cBallOnWeld, cPlaneOnWeld, cSecondWeld};
+            for (int kx = 0; kx < 3 && (int)specs.size() < 7; ++kx) if (g.coin()) {
+                Spec d; d.type = kinds[kx]; d.cls = s.cls; d.seed = g.next(); d.enabled = g.below(4) != 0; d.ref = w; specs.push_back(d); }
+        }
         if (g.below(5) == 0 && (int)specs.size() < 6) { Spec d = s; d.enabled = g.below(4) != 0; specs.push_back(d); ++i; }   // exact duplicate: redundant but consistent
     }
     bool anyEnabled = false; for (auto& s : specs) anyEnabled = anyEnabled || s.enabled;
@@ -168,6 +197,7 @@ static void oneCase(uint64_t seed, long caseNo) {
     std::string tag = std::string(zeroG ? "zeroG" : wellposed ? (fullrank ? "fullrank" : "redundant") : "illcond") + (consistent ? "" : ".inconsistent") + (anyDisabled ? ".mask" : "");
     vh::D("chk." + icls + "." + tag + ".m" + std::to_string(std::min(m, 12)));
     tagBodies(M);
+    for (size_t k = 0; k < A.cons.size(); ++k) if (specs[A.specIx[k]].type >= cBallOnWeld && specs[A.specIx[k]].enabled) vh::D("derivedRedundancy." + icls);
     for (auto& ci : A.cons) vh::D(std::string("type.") + (ci.type == cSpeedCoupler && ci.fn && ci.fn->c == 0 && ci.cq.empty() ? "SpeedCouplerLinear" : consName(ci.type)));
     const double fscale = std::max(1.0, std::max(vmax(feff), mmax(Mm) * vmax(d.udot)));
     const bool finite = !std::isnan(vmax(d.udot)) && !std::isnan(vmax(d.lambda));
@@ -211,6 +241,33 @@ static void oneCase(uint64_t seed, long caseNo) {
             } else if (d.lambda.size() != e.lambda.size()) vh::P("disabled_lambda", icls + ".disabled.lambda", NAN, 0);
         }
     }
+    // ---- the model assembles the enabled rows itself: export G and b of ALL constraints (enabled in a copy of the state) + row mask
+    if (anyDisabled && wellposed && consistent && finite && m > 0) {
+        State sf = savedState;
+        for (auto& ci : A.cons) ci.c.enable(sf);
+        M.system.realize(sf, Stage::Velocity);
+        Matrix Gf; matter.calcG(sf, Gf);
+        Vector af; matter.calcConstraintAccelerationErrors(sf, zero, af);
+        const int mf = Gf.nrow();
+        std::vector<int> mask(mf, 0);
+        for (size_t k = 0; k < A.cons.size(); ++k) {
+            int mp, mv, ma; A.cons[k].c.getNumConstraintEquationsInUse(sf, mp, mv, ma);
+            MultiplierIndex px, vx, ax; A.cons[k].c.getIndexOfMultipliersInUse(sf, px, vx, ax);
+            const int en = specs[A.specIx[k]].enabled ? 1 : 0;
+            for (int i = 0; i < mp; ++i) mask[(int)px + i] = en;
+            for (int i = 0; i < mv; ++i) mask[(int)vx + i] = en;
+            for (int i = 0; i < ma; ++i) mask[(int)ax + i] = en;
+        }
+        int nOn = 0; for (int x : mask) nOn += x;
+        if (nOn == m) {      // sanity: the enabled rows are exactly the rows of the masked system
+            vh::Line L = vh::I("loopFDmask"); L.i(nu).i(mf).i(fullrank ? 1 : 0);
+            for (int x : mask) L.i(x);
+            emitMat(L, Mm); emitMat(L, Gf); emitVec(L, feff); Vector bf = -af; emitVec(L, bf); L.emit();
+            std::printf("T 1e-6 1e-9\n");
+            vh::Line O = vh::O("loopFDmask"); O.d(1.0); emitVec(O, d.udot); if (fullrank) emitVec(O, d.lambda); O.emit();
+            vh::D(std::string("loopFDmask.") + (fullrank ? "fullrank" : "redundant"));
+        } else vh::P("mask_rows_match", icls + ".mask_rows_match", std::abs(nOn - m), 0);
+    }
     // ---- power of workless constraints on the velocity manifold
     if (icls == "onManifold" && m > 0 && finite) {
         bool allWorkless = true;
@@ -225,7 +282,7 @@ static void oneCase(uint64_t seed, long caseNo) {
             const double p = matter.calcConstraintPower(s);
             double l1 = 0; for (int i = 0; i < d.lambda.size(); ++i) l1 += std::abs(d.lambda[i]);
             const double verr = vmax(s.getUErr());
-            const double slack = 2 * l1 * verr + 1e-10 * std::max(1.0, l1 * mmax(G) * vmax(s.getU()) * nu);
+            const double slack = 2 * l1 * verr + 1e-11 * std::max(1.0, l1 * mmax(G) * vmax(s.getU()) * nu);
             vh::P("power_zero", std::string("onManifold.workless.power"), std::abs(p) / slack, 1.0);
         }
     }
@@ -260,9 +317,11 @@ static void testcc() {
     std::vector<MobilizerUIndex> speeds = {MobilizerUIndex(0), MobilizerUIndex(0), MobilizerUIndex(1)};
     Constraint::SpeedCoupler coupler(matter, new CompoundFunction(), bodies, speeds);
     system.realizeTopology(); State state = system.getDefaultState();
-    // the test draws its state from Random::Uniform with the default seed; two different starting points are used here
+    // Random's default seed is a process-wide counter (++nextSeed): in the test binary testSpeedCoupler2's createState constructs
+    // the 5th Random object of the process (lines 221, 263, 328, 381, 421 of TestCustomConstraints.cpp), i.e. seed 5: variant 0
+    // replays exactly the failing trajectory (gimbal close to its singularity at t=5.97, |lambda| ~ 7.7e3); variant 1 is another start
     for (int variant = 0; variant < 2; ++variant) {
-        Random::Uniform random; random.setSeed(variant == 0 ? 0 : 7);
+        Random::Uniform random; random.setSeed(variant == 0 ? 5 : 7);
         for (int i = 0; i < state.getNY(); ++i) state.updY()[i] = random.getValue();
         system.realize(state, Stage::Velocity); system.project(state, 1e-12); system.realize(state, Stage::Acceleration);
         RungeKuttaMersonIntegrator integ(system); integ.setAccuracy(1e-6); integ.setReturnEveryInternalStep(true); integ.initialize(state);
@@ -270,7 +329,11 @@ static void testcc() {
         while (integ.getTime() < 10.0) {
             integ.stepTo(10.0); const State& s = integ.getState(); system.realize(s, Stage::Acceleration);
             const double p = coupler.calcPower(s), lam = coupler.getMultipliersAsVector(s)[0], verr = coupler.getVelocityErrorsAsVector(s)[0];
-            const double slack = 2 * std::abs(lam) * std::abs(verr) + 1e-10 * std::max(1.0, std::abs(lam) * 6 * maxAbs(s.getU()));
+            // slack: twice |lambda*verr| (what a workless constraint may legitimately show when verr is only within tolerance) plus
+            // the rounding level of the sum -lambda*(1 u0 + 2 u1 + 3 u2): 256 eps |lambda| sum|c_i u_i|
+            const Vector& uu = s.getU();
+            const double sumcu = std::abs(uu[0]) + 2 * std::abs(uu[6]) + 3 * std::abs(uu[13]);   // body 1 u0, body 3 u0, body 5 u1
+            const double slack = 2 * std::abs(lam) * std::abs(verr) + 256 * 2.2e-16 * std::max(1.0, std::abs(lam) * sumcu);
             worstRatio = std::max(worstRatio, std::abs(p) / slack); worstAbs = std::max(worstAbs, std::abs(p));
             worstTestRatio = std::max(worstTestRatio, std::abs(p) / (10 * integ.getConstraintToleranceInUse()));
             worstLam = std::max(worstLam, std::abs(lam)); ++steps;
